@@ -76,7 +76,31 @@ def build(ref, others=(), fails=(), panics=()):
                 before[b].add(a)
             elif ref.ordered(b, a):
                 before[a].add(b)
+    # dataflow for the Confluence invariant: reads-from relation of the reference (canonical) run
+    item_idx = {}
+    for j in names:
+        if j in acc:
+            for x in sorted(acc[j][0] | acc[j][1]):
+                item_idx.setdefault(x, len(item_idx) + 1)
+    last = {}
+    canon_rf = {j: [] for j in names}
+    reads_of = {j: [] for j in names}
+    writes_of = {j: [] for j in names}
+    ref_acc = access_sets(ref)
+    for j in ran:  # canonical order = start order of the reference run
+        r, w = ref_acc.get(j, (set(), set()))
+        for x in sorted(r):
+            reads_of[j].append(item_idx[x])
+            canon_rf[j].append(idx.get(last.get(x), 0))
+        for x in sorted(w):
+            writes_of[j].append(item_idx[x])
+            last[x] = j
     gj = {
+        "nitems": len(item_idx),
+        "items": [x for x, _ in sorted(item_idx.items(), key=lambda kv: kv[1])],
+        "reads": [reads_of[x] for x in names],
+        "writes": [writes_of[x] for x in names],
+        "canonrf": [canon_rf[x] for x in names],
         "n": n,
         "names": names,
         "disc": [ref.jobs[x]["disc"] for x in names],
@@ -215,6 +239,21 @@ def slice_graph(gj, keep):
     out["read"] = [acc(gj["read"][i - 1]) for i in keep]
     out["rewrites"] = [[{"id": new[r["id"]], "read": acc(r["read"]), "must": r["must"]}
                         for r in gj["rewrites"][i - 1] if r["id"] in new] for i in keep]
+    if "nitems" in gj:
+        out["nitems"] = gj["nitems"]
+        out["items"] = gj["items"]
+        out["writes"] = [gj["writes"][i - 1] for i in keep]
+        rd, rf = [], []
+        for i in keep:
+            r2, f2 = [], []
+            for x, w in zip(gj["reads"][i - 1], gj["canonrf"][i - 1]):
+                if w == 0 or w in new:  # the slice is ancestor-closed, so canonical writers are in it
+                    r2.append(x)
+                    f2.append(new.get(w, 0))
+            rd.append(r2)
+            rf.append(f2)
+        out["reads"] = rd
+        out["canonrf"] = rf
     out["fails"] = ids(gj.get("fails", []))
     out["panics"] = ids(gj.get("panics", []))
     return out
